@@ -10,7 +10,7 @@ import re
 from hypothesis import strategies as st
 
 from pbt import dsl, findings
-from pbt.common import Violation, run_hypothesis
+from pbt.common import Violation, guarded, run_hypothesis
 
 ID = 'C15'
 RULE = ('(1) complete enumeration: all ranges 0 <= start <= end <= 130 (quick: every 3rd start/end pair) x numerals 0..1400 with 0-2 '
@@ -210,26 +210,23 @@ def run_shard(spec, ctx):
                 k += 1
                 if k % spec['parts'] != spec['part'] or (spec['step'] > 1 and (start * 131 + end) % spec['step']):
                     continue
-                p = make('Integer', start, end, False, False)
-                rx = re.compile(str(p), dsl.FLAGS)
-                bad = None
-                for (r, canon, v) in vals:
-                    n += 1
-                    if (rx.fullmatch(r) is not None) != (canon and start <= v <= end):
-                        bad = r
-                        break
-                case = {'mode': 'exact', 'start': start, 'end': end, 'numerals': [bad] if bad else [str(start), str(end + 1), '0' + str(end)]}
-                if bad is not None:
-                    try:
-                        check_case(case, ctx)
-                    except Violation as v:
-                        if v.kind not in ctx.suppressed:
-                            ctx.record_violation(v, shrunk=False)
-                            ctx.suppressed.add(v.kind)
-                else:
-                    ctx.evaluations += len(vals) - 1
-                    ctx.case([start, end], True, sample={'call': f'Integer({start}, {end})', 'numerals': '0..1400 with 0-2 leading zeros'}
-                             if k % 500 == 0 else None)
+                def one_range(start=start, end=end, k=k):
+                    nonlocal n
+                    p = make('Integer', start, end, False, False)
+                    rx = re.compile(str(p), dsl.FLAGS)
+                    bad = None
+                    for (r, canon, v) in vals:
+                        n += 1
+                        if (rx.fullmatch(r) is not None) != (canon and start <= v <= end):
+                            bad = r
+                            break
+                    if bad is not None:
+                        check_case({'mode': 'exact', 'start': start, 'end': end, 'numerals': [bad]}, ctx)
+                    else:
+                        ctx.evaluations += len(vals) - 1
+                        ctx.case([start, end], True, sample={'call': f'Integer({start}, {end})', 'numerals': '0..1400 with 0-2 leading zeros'}
+                                 if k % 500 == 0 else None)
+                guarded(ctx, {'mode': 'exact', 'start': start, 'end': end, 'numerals': [str(start), str(end + 1), '0' + str(end)]}, one_range)
         ctx.exhaustive['(range, numeral) pairs: ranges within 0..130 x numerals 0..1400 x 0-2 leading zeros'] = n
     else:
         run_hypothesis(ctx, gen_case(), check_case, spec['examples'])
